@@ -19,6 +19,14 @@ RULE = ("seeded generator of well-formed sign requests (6 key paths x legacy/seg
         "the device reported. distinct = (mode, form, #inputs, push-kind set, chunk policy, "
         "hostile rule, signature shape); non-trivial = authorized request that took >= 2 "
         "chunks in >= 2 parts, or any hostile-policy case")
+RULE_ADDED = (
+              'Also: a quarter of the authorized cases ask again for the previous transaction (other '
+              'input / mode / receipt / proof) on the same manager; a fifth run over the SGX or '
+              'TCPSigner transport; 6% write one hex field with ASCII blanks (refusal without '
+              'contact, or exactly those bytes relayed); script / output-script lengths and input / '
+              'output counts on varint boundaries; receipts whose length sits on RLP / chunk '
+              'boundaries; device signatures of every well-formed shape ')
+RULE = RULE + " " + RULE_ADDED.strip()
 ASSUMPTIONS = [
     "device model and fake HID transport are trusted (pv/simdev); they follow the framing only",
     "comm/bitcoin.py runs over the bitcoin.core shim; the oracle for the relayed transaction "
